@@ -30,7 +30,17 @@ def scenarios(tier):
   out.append(('mux 2 endpoints, member leaves, 2 calls',
               {'stack': 'mux', 'endpoints': 2, 'ops': [('call', 'u0', 0.1025), ('call', 'u1')], 'faults': ['drop', 'reset'],
                'scripted_serverset': True, 'membership': [('leave', 0)], 'timeout': 0.5025}))
-  return out
+  # the same hops with one preemption allowed: a timer may expire between two ready callbacks (e.g. between a
+  # hop's last deadline check and its write)
+  pre = []
+  for name, params in out:
+    if 'member leaves' in name:
+      continue
+    q = dict(params)
+    q['max_preempt'] = 1
+    q['_bound'] = 2 if tier == 'quick' else 3
+    pre.append((name + ' [+1 preemption]', q))
+  return out + pre
 
 
 def main(tier, seed):
